@@ -357,7 +357,7 @@ def splice (cfg : Cfg) (v : Nat) (lo hi : Bnd) (typed : Bool) (repl : List Src) 
 
 def newVec (cfg : Cfg) (ty : Nat) (bk : Backend) (cloneable : Bool) (withCap : Option Nat) :
     WM Out := do
-  let cap ← WM.lift (VecSt.buildCap bk cfg.size)
+  let cap ← WM.lift (VecSt.buildCap bk cfg.size cfg.align)
   let w ← WM.get
   let idx := w.vecs.length
   let v : VecSt := { ty, size := cfg.size, align := cfg.align, hasDrop := cfg.hasDrop, cloneable,
@@ -390,7 +390,7 @@ def dropVec (v : Nat) : WM Unit := do
 
 def cloneEmptyIn (v : Nat) (bk : Backend) : WM Nat := do
   let x ← getVec v
-  let cap ← WM.lift (VecSt.buildCap bk x.size)
+  let cap ← WM.lift (VecSt.buildCap bk x.size x.align)
   let w ← WM.get
   let idx := w.vecs.length
   let nv : VecSt := { x with bk, cap, cells := [], len := 0, gen := 0, live := true }
